@@ -25,7 +25,7 @@ pub fn families() -> Vec<Family> {
             "WebSocketServer off-reader cap: saturation with up to 4x cap gated requests/notifies, seeded release orders with return/error/panic exits, inline traffic during saturation, refill after each exit",
             c16_ws_offreader,
         )
-        .runs(1_500, 60_000)
+        .runs(15_000, 900_000)
         .steps(2_000_000)
         .tokio(),
         Family::new(
@@ -34,7 +34,7 @@ pub fn families() -> Vec<Family> {
             "WebSocketServer off-reader responses under back-pressure: gated _blocking handlers are released while the bounded outbound queue is full behind a client that is not reading; once the client reads, every request must have exactly one response",
             c03_ws_backpressure,
         )
-        .runs(1_500, 60_000)
+        .runs(1_200, 72_000)
         .steps(2_000_000)
         .tokio(),
     ]
@@ -340,6 +340,13 @@ fn c16_ws_offreader(case: &Case) {
         {
             let g = gate.st.lock().unwrap();
             case.check(g.entered_twice.is_empty(), "handler-invoked-twice", || format!("handlers entered twice: {:?}", g.entered_twice));
+            // the connection is alive: no handler may have seen its cancellation signal fire,
+            // whatever its siblings did (returned, failed, panicked)
+            for (t, seen) in &g.cancelled_seen {
+                if exits.contains_key(t) {
+                    case.check(!*seen, "sibling-cancelled", || format!("handler #{t} saw is_cancelled() == true on a live connection (exits so far: {exits:?})"));
+                }
+            }
             for t in &dropped_notifies {
                 case.check(!g.arrived.contains(t), "notify-at-cap-ran", || format!("notify #{t} arrived at the cap but its handler ran"));
             }
